@@ -36,6 +36,9 @@ func gsxCommentFile(text string) (*ast.File, *ast.Comment) {
 func gsxC09CommentFix() {
 	text := gsxrt.StringN("text", 10)
 	gsxrt.Assume(gsxrt.Matches(`^//[\t -~]*$`, text))
+	// case split on the length (fixed-length strings are far easier for the solver)
+	n := 2 + gsxrt.Choose("len", gsxrt.Bound("strlen", 8)-1)
+	gsxrt.Assume(len(text) == n)
 	fset := token.NewFileSet()
 	fset.AddFile("/w/a.go", -1, 200)
 	ctx := linter.NewContext(fset, types.SizesFor("gc", "amd64"))
